@@ -13,7 +13,8 @@ for l in open('out.jsonl'):
     if not l.startswith('{'): continue
     r=json.loads(l); n+=1; steps+=r['steps']; nt+=r['nontrivial']
     if r.get('violation'):
-        s=r['violation']['Sig']; c[s]+=1; ex.setdefault(s,(r['run'],r['violation']['Detail']))
+        for v in [r['violation']]+(r.get('extra_violations') or []):
+            s=v['Sig']; c[s]+=1; ex.setdefault(s,(r['run'],v['Detail']))
     elif r.get('stuck'):
         s='STUCK: '+r['stuck'][:150]; c[s]+=1; ex.setdefault(s,(r['run'],''))
 print('runs',n,'nontrivial',nt,'avg steps',steps//max(n,1))
